@@ -22,6 +22,9 @@ __t(9000, [[...__m.values()], [...__st].map((x) => (typeof x === "symbol" ? "sym
   [{k: 1, v: "a"}, {k: 0, v: "b"}, {k: 1, v: "c"}, {k: 0, v: "d"}].sort((a, b) => a.k - b.k).map((x) => x.v),
   Object.keys(__big), JSON.stringify(__big), Math.random(), Math.random(), Date.now(), new Date(0).getTime(),
   [__o3, __o1, __o2].map((o) => __m.get(o))]);
+__t(9001, [/a(b+)c/.test("xabbc"), "a1b22c".replace(/\d+/g, "@"), "x,y;z".split(/[,;]/).length, /^K\w+/i.test("key-9")]);
+export const __ea = 1; export let __eb = "two"; export function __ec() { return 3; } export class __Ed {} export const __ee = [5];
+export const __ef = {six: 6}; export const __eg = () => 7; export const __eh = null; export const __ei = __s1; export default 10;
 "#;
 
 struct Runner {
@@ -36,7 +39,7 @@ impl Runner {
     fn new(src: &str) -> Runner {
         let log = Rc::new(RefCell::new(Vec::new()));
         let mut interp = new_interp(&log);
-        let first = match interp.prepare(src, None) {
+        let first = match interp.prepare(src, Some(tsrun::ModulePath::new("/c12/main.ts"))) {
             Ok(r) => Ok(r),
             Err(e) => Err(format!("error:{}", error_class(&e))),
         };
@@ -81,7 +84,7 @@ impl Runner {
         false
     }
     fn trace(&self) -> String {
-        format!("steps={} end={} log={}", self.steps, self.end.clone().unwrap_or_default(), self.log.borrow().join("\u{1}"))
+        format!("steps={} end={} exports={} log={}", self.steps, self.end.clone().unwrap_or_default(), self.interp.get_export_names().join(","), self.log.borrow().join("\u{1}"))
     }
 }
 
@@ -94,8 +97,82 @@ fn solo(src: &str) -> String {
 }
 
 /// create and drop other interpreters in various states, and allocate junk
-fn perturb(kind: u64, other: &str) {
-    match kind % 5 {
+/// A RegExp engine that never matches anything: instances configured with it must not influence
+/// (or be influenced by) instances that use the default engine.
+#[derive(Debug)]
+struct NeverRegex;
+impl tsrun::platform::CompiledRegex for NeverRegex {
+    fn is_match(&self, _input: &str) -> Result<bool, String> {
+        Ok(false)
+    }
+    fn find(&self, _input: &str, _start_pos: usize) -> Result<Option<tsrun::platform::RegexMatch>, String> {
+        Ok(None)
+    }
+    fn find_iter(&self, _input: &str) -> Result<Vec<tsrun::platform::RegexMatch>, String> {
+        Ok(vec![])
+    }
+    fn split(&self, input: &str) -> Result<Vec<String>, String> {
+        Ok(vec![input.to_string()])
+    }
+    fn replace(&self, input: &str, _replacement: &str) -> Result<String, String> {
+        Ok(input.to_string())
+    }
+    fn replace_all(&self, input: &str, _replacement: &str) -> Result<String, String> {
+        Ok(input.to_string())
+    }
+}
+struct NeverProvider;
+impl tsrun::platform::RegExpProvider for NeverProvider {
+    fn compile(&self, _pattern: &str, _flags: &str) -> Result<Rc<dyn tsrun::platform::CompiledRegex>, String> {
+        Ok(Rc::new(NeverRegex))
+    }
+}
+
+const REGEX_PROBE: &str = "console.log(\"t9001:\" + JSON.stringify([/a(b+)c/.test(\"xabbc\"), \"a1b22c\".replace(/\\d+/g, \"@\"), \"x,y;z\".split(/[,;]/).length, /^K\\w+/i.test(\"key-9\")]));";
+
+/// What the regex line of the epilogue prints under the default engine and under `NeverProvider`,
+/// each measured once in a fresh OS thread (nothing any other instance did can be visible there).
+fn regex_expectations() -> &'static (String, String) {
+    static CELL: std::sync::OnceLock<(String, String)> = std::sync::OnceLock::new();
+    CELL.get_or_init(|| {
+        let run = |never: bool| -> String {
+            std::thread::spawn(move || {
+                let log = Rc::new(RefCell::new(Vec::new()));
+                let mut interp = new_interp(&log);
+                if never {
+                    interp.set_regexp_provider(Rc::new(NeverProvider));
+                }
+                let _ = interp.eval(REGEX_PROBE, None);
+                let l = log.borrow().first().cloned().unwrap_or_default();
+                l
+            })
+            .join()
+            .unwrap_or_default()
+        };
+        (run(false), run(true))
+    })
+}
+
+/// The regex line of a finished run, if the epilogue got that far
+fn regex_line(trace: &str) -> Option<String> {
+    trace.split('\u{1}').find(|l| l.starts_with("t9001:")).map(|l| l.to_string())
+}
+
+fn perturb(kind: u64, other: &str) -> Option<String> {
+    match kind % 6 {
+        5 => {
+            // another instance with its own RegExp engine runs the same regular expressions first
+            let mut r = Runner::new(other);
+            r.interp.set_regexp_provider(Rc::new(NeverProvider));
+            while !r.advance(100_000, BUDGET) {}
+            // that instance must have been served by ITS engine
+            if let Some(l) = regex_line(&r.trace()) {
+                let want = format!("t9001:{}", regex_expectations().1.trim_start_matches("t9001:"));
+                if l.replace(' ', "") != want.replace(' ', "") {
+                    return Some(format!("an instance with its own RegExp engine got results of another engine: {} (its engine gives {})", l, want));
+                }
+            }
+        }
         0 => {}
         1 => {
             let mut v: Vec<Vec<u8>> = vec![];
@@ -125,6 +202,7 @@ fn perturb(kind: u64, other: &str) {
             drop(c);
         }
     }
+    None
 }
 
 impl Property for C12Prop {
@@ -132,7 +210,7 @@ impl Property for C12Prop {
         "C12"
     }
     fn rule(&self) -> String {
-        "P and Q = two progen programs (full profile) each followed by an address- and order-sensitive epilogue (objects and symbols as Map/Set keys, enumeration of a 12-key object, stable sort with ties, Symbol identity, Math.random/Date.now under fixed providers). The full trace (number of steps, terminal result with payload, console lines) of P must be identical: solo; 3x in fresh interpreters each preceded by a different perturbation (junk allocation, an interpreter abandoned mid-run, a failed run, several live interpreters dropped out of order); with P and Q stepped in one thread under a tape-chosen interleaving; in 4 OS threads at once (every 8th case); and in a separately spawned process (every 16th case). Non-trivial: the trace has >= 200 steps and the epilogue ran. Distinct = distinct (P, Q, schedule).".into()
+        "P and Q = two progen programs (full profile) run as modules, each followed by an address- and order-sensitive epilogue (objects and symbols as Map/Set keys, enumeration of a 12-key object, stable sort with ties, Symbol identity, Math.random/Date.now under fixed providers, four regular expressions, ten exports of every declaration kind). The full trace (number of steps, terminal result with payload, export table in the order the host API reports it, console lines) of P must be identical: solo; 3x in fresh interpreters each preceded by a different perturbation (junk allocation, an interpreter abandoned mid-run, a failed run, several live interpreters dropped out of order, an instance configured with a different RegExp engine - one that never matches - running the same regular expressions first; every instance must show the regex results of ITS engine, measured once in fresh OS threads); with P and Q stepped in one thread under a tape-chosen interleaving; in 4 OS threads at once (every 8th case); and in a separately spawned process (every 16th case). Non-trivial: the trace has >= 200 steps and the epilogue ran. Distinct = distinct (P, Q, schedule).".into()
     }
     fn assumptions(&self) -> Vec<String> {
         vec!["time and random providers are fixed by the harness (the property conditions on them)".into(), "thread interleavings are not owned by the harness: the 4-thread run is a smoke test (Interpreter is !Send and shares nothing by design)".into()]
@@ -152,7 +230,7 @@ impl Property for C12Prop {
             }
         };
         let sched: Vec<u64> = (0..24).map(|_| 1 + tape.below(400) as u64).collect();
-        let perturb: Vec<u64> = (0..3).map(|_| tape.below(5) as u64).collect();
+        let perturb: Vec<u64> = (0..3).map(|_| tape.below(6) as u64).collect();
         json!({"p": fin(p.js()), "q": fin(q.js()), "schedule": sched, "perturb": perturb,
                "threads": tape.chance(1, 8), "xproc": tape.chance(1, 16)})
     }
@@ -173,8 +251,16 @@ impl Property for C12Prop {
             let mut problems: Vec<String> = vec![];
             // (a) repetition with perturbations
             for (k, pk) in case["perturb"].as_array().cloned().unwrap_or_default().iter().enumerate() {
-                perturb(pk.as_u64().unwrap_or(0), &q);
+                if let Some(problem) = perturb(pk.as_u64().unwrap_or(0), &q) {
+                    problems.push(problem);
+                }
                 let t = solo(&p);
+                if let Some(l) = regex_line(&t) {
+                    let want = &regex_expectations().0;
+                    if l.replace(' ', "") != want.replace(' ', "") {
+                        problems.push(format!("default-engine instance got regex results {} (the default engine gives {})", l, want));
+                    }
+                }
                 if t != base_p {
                     problems.push(format!("repetition {} after perturbation {} differs", k, pk));
                 }
